@@ -41,16 +41,15 @@ def orC (a b : Res Bool) : Res Bool := a >>= fun x => if x then pure true else b
 /-- the loop-fuel marker -/
 def outOfFuel {α} : Res α := .unmodelled "fuel"
 
-/-- `make([]T, n)` for an element type other than `any` (`[][]any`, `[]string`, `[]decimal128.Decimal`):
-    `n` copies of the zero value `z`; same limits as `make?` -/
-def makeOf? {α} (z : α) (n : Int) : Res (List α) :=
-  if 0 ≤ n ∧ n ≤ makeLimit then .ok (List.replicate n.toNat z) else .panic makeMsg
+/- `make([]T, n)` for an element type other than `any` is `makeOf? elemSize z n` of `C03DChecked` (`[][]any`: 24-byte
+   elements, limit `2^48 / 24`; `[]string`, `[]decimal128.Decimal`: 16-byte elements, limit `2^44`). -/
 
-theorem makeOf?_ok {α} (z : α) (n : Int) (h0 : 0 ≤ n) (h1 : n ≤ makeLimit) :
-    makeOf? z n = .ok (List.replicate n.toNat z) := by
-  unfold makeOf?; rw [if_pos ⟨h0, h1⟩]
+/-- size in bytes of a slice header (`[]any` as an element of `[][]any`) -/
+def sliceHdrSize : Nat := 24
+/-- size in bytes of a `string` header, of a `decimal128.Decimal` (two `uint64`) and of an `any` -/
+def wordPairSize : Nat := 16
 
-example : makeOf? (0 : Nat) (-1) = .panic makeMsg := rfl
+example : makeOf? wordPairSize (0 : Nat) (-1) = .panic makeMsg := rfl
 
 theorem drop_cons_idx {α} {s : List α} {i : Nat} {b : α} {t : List α} (h : s.drop i = b :: t) :
     i < s.length ∧ idx? s (i : Int) = .ok b ∧ s.drop (i + 1) = t := by
@@ -602,10 +601,12 @@ def reverseArrLoopC (a : List Val) (l : Int) : Nat → Int → Int → List Val 
     else pure r
 
 /-- functions.go:91 `reverse(v)`.
-    Sites: string branch `:99 s[:len(s)-sz]`; array branch `:107 make([]any, l)`, `:109 r[j] = a[i]`. -/
+    Sites: string branch `:94 b.Grow(len(s))` (→ `grow?`; a length is never negative: `grow?_len`),
+    `:99 s[:len(s)-sz]`; array branch `:107 make([]any, l)`, `:109 r[j] = a[i]`. -/
 def reverseC (v : Val) : Res Val :=
   match v with
   | .str s => do
+    grow? (s.length : Int)                                  -- var b strings.Builder; b.Grow(len(s))
     let b ← reverseStrLoopC (s.length + 1) s []
     pure (.str b)
   | .arr t a => do
@@ -702,7 +703,7 @@ theorem reverseC_eq (v : Val) (hmake : ∀ t a, v = .arr t a → (a.length : Int
   unfold reverseC reverse
   cases v with
   | str s =>
-    simp only [reverseStrLoopC_eq (s.length + 1) s [] (by omega), Res.ok_bind, List.nil_append]; rfl
+    simp only [grow?_len, reverseStrLoopC_eq (s.length + 1) s [] (by omega), Res.ok_bind, List.nil_append]; rfl
   | arr t a =>
     simp only
     rw [make?_ok _ (by omega) (hmake t a rfl)]
@@ -776,21 +777,24 @@ def isEnum2 : Val → Bool
   | .arr t xs => enum2 t xs
   | _ => false
 
+/-- evaluator.go:1070-1080, what follows the first loop: `results := make([]any, count)`, the two nested loops,
+    `return results, nil`; `en` is the model's marker "some argument is a map-ordered array of ≥ 2 elements" -/
+def zipTailC (count : Int) (values : List (List Val)) (en : Bool) : Res Val := do
+  let results ← make? count                                 -- results := make([]any, count)
+  let results ← zipOuterC values count (count.toNat + 1) 0 results
+  if en then .nondet                                        -- (model marker, after every checked operation)
+  else pure (.arr .plain results)
+
 /-- evaluator.go:1046-1080 `case *parser.ZipNode`, on the evaluated arguments `vs`.
     Sites: `:1048 make([][]any, len(node.Arguments))`, `:1067 values[i] = a`, `:1070 make([]any, count)`
     (`count` starts as `math.MaxInt`), `:1072 make([]any, len(values))`, `:1074 result[j] = value[i]`,
-    `:1077 results[i] = result`.  The `.nondet` line is the model's marker (`zipArgs`), not a Go statement. -/
+    `:1077 results[i] = result`.  The `.nondet` line is the model's marker (`zipArgs`), not a Go statement; it is
+    consulted AFTER the checked allocation and loops (which depend on the lengths only, not on the element order). -/
 def zipC (vs : List Val) : Res Val := do
   let count := maxInt
-  let values ← makeOf? ([] : List Val) (vs.length : Int)
+  let values ← makeOf? sliceHdrSize ([] : List Val) (vs.length : Int)
   let p ← zipLoop1C vs 0 count values
-  let count := p.1
-  let values := p.2
-  if vs.any isEnum2 then .nondet
-  else do
-    let results ← make? count
-    let results ← zipOuterC values count (count.toNat + 1) 0 results
-    pure (.arr .plain results)
+  zipTailC p.1 p.2 (vs.any isEnum2)
 
 /-- what the model's `.zip` node does with the evaluated arguments (the tail of `ieval … (.zip args)`) -/
 def zipM (vs : List Val) : Res Val := do
@@ -961,53 +965,54 @@ theorem zipOuterC_eq (cols : List (List Val)) (count : Nat) (hc : ∀ c ∈ cols
 /-- **zip never indexes out of range and never allocates a negative / absurd length**, provided it has at least one
     argument.  `vs` are the evaluated arguments.  Hypotheses:
     * `hne : vs ≠ []` — with no argument `count` stays `math.MaxInt` and `make([]any, count)` (evaluator.go:1070)
-      panics; the parser establishes it (parser.go:1347 `functionVarArg` rejects `zip()`; model: `parse_zip_nonempty`
+      panics; the parser establishes it (parser.go:1348 `functionVarArg` rejects `zip()` at :1349; model: `parse_zip_nonempty`
       below);
     * `hargs`, `hlen` — `make` of the argument count / of the shortest argument length: lengths of things that exist.
     Conclusion: the checked mirror equals the model's zip (`zipM`, the tail of `ieval … (.zip args)`, see `ieval_zip`). -/
-theorem zipC_eq (vs : List Val) (hne : vs ≠ []) (hargs : (vs.length : Int) ≤ makeLimit)
+theorem zipC_eq (vs : List Val) (hne : vs ≠ []) (hargs : (vs.length : Int) ≤ makeLimitOf sliceHdrSize)
     (hlen : ∀ t a, Val.arr t a ∈ vs → (a.length : Int) ≤ makeLimit) : zipC vs = zipM vs := by
-  unfold zipC zipM
-  rw [makeOf?_ok _ _ (by omega) hargs, zipArgs_spec]
+  unfold zipC zipM zipTailC
+  rw [makeOf?_ok _ _ _ (by omega) hargs, zipArgs_spec]
   simp only [Res.ok_bind]
   have h1 := zipLoop1C_eq vs 0 maxInt [] rfl
   simp only [List.nil_append] at h1
   rw [show ((vs.length : Int)).toNat = vs.length by omega, show (0 : Int) = ((0 : Nat) : Int) by rfl, h1]
   by_cases hall : vs.all isArr = true
   · simp only [hall, if_true, Res.ok_bind]
-    by_cases hen : vs.any isEnum2 = true
-    · simp only [hen, if_true]; rfl
-    · simp only [hen, Bool.false_eq_true, if_false, Res.ok_bind]
-      cases vs with
-      | nil => exact absurd rfl hne
-      | cons v rest =>
-        cases v with
-        | arr t c =>
-          simp only [colsOf, countFold]
-          have hcl : (c.length : Int) ≤ makeLimit := hlen t c (by simp)
-          have hlt : (c.length : Int) < maxInt := by
-            have : makeLimit < maxInt := by decide
-            omega
-          simp only [hlt, if_true]
-          rw [countFold_nat]
-          generalize hcount : (colsOf rest).foldl (fun m x => min m x.length) c.length = count
-          have hle := countFold_le (colsOf rest) (c.length : Int)
-          rw [countFold_nat, hcount] at hle
-          rw [make?_ok _ (by omega) (by omega)]
-          simp only [Res.ok_bind]
-          have hcols : ((c :: colsOf rest).length : Int) ≤ makeLimit := by
-            have := colsOf_length (Val.arr t c :: rest) hall
-            simp only [colsOf] at this
-            rw [this]; exact hargs
-          have := zipOuterC_eq (c :: colsOf rest) count
-            (fun x hx => by
-              rcases List.mem_cons.mp hx with rfl | hx
-              · omega
-              · have := hle.2 x hx; omega) hcols (count + 1) 0 (by omega) (by omega)
-          simp only [List.range_zero, List.map_nil, List.nil_append, Nat.sub_zero] at this
-          rw [show ((count : Int)).toNat = count by omega, this]
-          simp only [Res.ok_bind, zipRows_eq_range]
-        | _ => simp [isArr] at hall
+    cases vs with
+    | nil => exact absurd rfl hne
+    | cons v rest =>
+      cases v with
+      | arr t c =>
+        simp only [colsOf, countFold]
+        have hcl : (c.length : Int) ≤ makeLimit := hlen t c (by simp)
+        have hlt : (c.length : Int) < maxInt := by
+          have : makeLimit < maxInt := by decide
+          omega
+        simp only [hlt, if_true]
+        rw [countFold_nat]
+        generalize hcount : (colsOf rest).foldl (fun m x => min m x.length) c.length = count
+        have hle := countFold_le (colsOf rest) (c.length : Int)
+        rw [countFold_nat, hcount] at hle
+        rw [make?_ok _ (by omega) (by omega)]
+        simp only [Res.ok_bind]
+        have hcols : ((c :: colsOf rest).length : Int) ≤ makeLimit := by
+          have := colsOf_length (Val.arr t c :: rest) hall
+          simp only [colsOf] at this
+          have h24 : makeLimitOf sliceHdrSize ≤ makeLimit := by decide
+          rw [this]; omega
+        have := zipOuterC_eq (c :: colsOf rest) count
+          (fun x hx => by
+            rcases List.mem_cons.mp hx with rfl | hx
+            · omega
+            · have := hle.2 x hx; omega) hcols (count + 1) 0 (by omega) (by omega)
+        simp only [List.range_zero, List.map_nil, List.nil_append, Nat.sub_zero] at this
+        rw [show ((count : Int)).toNat = count by omega, this]
+        simp only [Res.ok_bind, zipRows_eq_range]
+        by_cases hen : (Val.arr t c :: rest).any isEnum2 = true
+        · simp only [hen, if_true]; rfl
+        · simp only [hen, Bool.false_eq_true, if_false, Res.ok_bind, hcount]
+      | _ => simp [isArr] at hall
   · simp only [hall]; rfl
 
 example : zipC [.arr .plain [.bool true, .bool false, .null], .arr .plain [.str [0x61], .str [0x62]]] =
@@ -1080,7 +1085,7 @@ theorem ievalZip_length (root : Val) : ∀ (args : List INode) (cur : Val) (env 
     model's result for the node is the result of the checked zip on `vs` — no index / make panic. -/
 theorem zip_node_checked (root : Val) (args : List INode) (cur : Val) (env : Env) (vs : List Val)
     (hne : zipHead (.zip args) = true) (hvs : ievalZip root args cur env = .ok vs)
-    (hargs : (args.length : Int) ≤ makeLimit)
+    (hargs : (args.length : Int) ≤ makeLimitOf sliceHdrSize)
     (hlen : ∀ t a, Val.arr t a ∈ vs → (a.length : Int) ≤ makeLimit) :
     ieval root (.zip args) cur env = zipC vs := by
   have hl := ievalZip_length root args cur env vs hvs
@@ -1090,6 +1095,167 @@ theorem zip_node_checked (root : Val) (args : List INode) (cur : Val) (env : Env
   cases args with
   | nil => simp [zipHead] at hne
   | cons a r => simp at hl
+
+/-! ### the zip case AS IN GO: the argument nodes are evaluated INSIDE the first loop
+
+  `zipC` above runs on arguments that are already evaluated.  In Go the `make([][]any, len(node.Arguments))` comes
+  first and `e.evaluate(arg, …)` is called inside the loop, between the writes `values[i] = a`: when argument `k`
+  fails, `k` writes have already happened.  `zipNodeC` mirrors exactly that; `zipNodeC_eq` shows that it is the
+  model's zip node in EVERY case (all arguments fine, argument `k` fails with an error, is not an array, …). -/
+
+/-- evaluator.go:1049-1068, the first loop as in Go; `ev arg` stands for `e.evaluate(arg, current, variables)`.
+    `:1050 value, err := e.evaluate(arg, …)`, `:1051 if err != nil { return nil, err }`, `:1055 a, ok := value.([]any)`
+    (comma-ok: `InvalidTypeError`), `:1063 if l := len(a); l < count { count = l }`, `:1067 values[i] = a` (→ `set?`).
+    `en` accumulates the model's marker "some argument is a map-ordered array of ≥ 2 elements". -/
+def zipLoop1NC (ev : INode → Res Val) : List INode → Int → Int → List (List Val) → Bool →
+    Res (Int × List (List Val) × Bool)
+  | [], _, count, values, en => pure (count, values, en)
+  | arg :: rest, i, count, values, en => do
+    let value ← ev arg                                      -- value, err := e.evaluate(arg, …); if err != nil { return }
+    match value with
+    | .arr t a => do                                        -- a, ok := value.([]any)
+      let count := if (a.length : Int) < count then (a.length : Int) else count
+      let values ← set? values i a                          -- values[i] = a
+      zipLoop1NC ev rest (i + 1) count values (en || enum2 t a)
+    | _ => errType                                          -- if !ok { return nil, &InvalidTypeError{…} }
+
+/-- evaluator.go:1046-1080 `case *parser.ZipNode` on the argument NODES: `:1047 count := math.MaxInt`,
+    `:1048 make([][]any, len(node.Arguments))` (24-byte elements), the first loop with the evaluations inside,
+    then `:1070 make([]any, count)` and the nested loops (`zipTailC`) -/
+def zipNodeC (ev : INode → Res Val) (args : List INode) : Res Val := do
+  let count := maxInt                                       -- count := math.MaxInt
+  let values ← makeOf? sliceHdrSize ([] : List Val) (args.length : Int)   -- values := make([][]any, len(node.Arguments))
+  let p ← zipLoop1NC ev args 0 count values false
+  zipTailC p.1 p.2.1 p.2.2
+
+/-- the model's `ievalZip` over an arbitrary evaluator: evaluate left to right, stop at the first failure or the first
+    non-array -/
+def ievalZipG (ev : INode → Res Val) : List INode → Res (List Val)
+  | [] => .ok []
+  | n :: ns => do
+    let v ← ev n
+    match v with
+    | .arr _ _ => do
+      let vs ← ievalZipG ev ns
+      pure (v :: vs)
+    | _ => errType
+
+/-- `ievalZip` is `ievalZipG` of the model's evaluator -/
+theorem ievalZip_G (root : Val) (cur : Val) (env : Env) : ∀ args : List INode,
+    ievalZip root args cur env = ievalZipG (fun n => ieval root n cur env) args
+  | [] => by rw [ievalZip]; rfl
+  | n :: ns => by
+    rw [ievalZip, ievalZipG]
+    apply Res.bind_congr; intro v
+    cases v <;> first | rfl | (simp only [ievalZip_G root cur env ns])
+
+/-- what `ievalZipG` returns consists of arrays, one per argument -/
+theorem ievalZipG_spec (ev : INode → Res Val) : ∀ (args : List INode) (vs : List Val), ievalZipG ev args = .ok vs →
+    vs.all isArr = true ∧ vs.length = args.length
+  | [], vs, h => by rw [ievalZipG] at h; cases h; exact ⟨rfl, rfl⟩
+  | n :: ns, vs, h => by
+    rw [ievalZipG] at h
+    cases hv : ev n with
+    | ok v =>
+      rw [hv] at h
+      simp only [Res.ok_bind] at h
+      cases v with
+      | arr t xs =>
+        simp only at h
+        cases hr : ievalZipG ev ns with
+        | ok vs' =>
+          rw [hr] at h
+          simp only [Res.ok_bind, Res.pure_eq] at h
+          cases h
+          obtain ⟨h1, h2⟩ := ievalZipG_spec ev ns vs' hr
+          exact ⟨by simp [isArr, h1], by simp [h2]⟩
+        | _ => rw [hr] at h; cases h
+      | _ => cases h
+    | _ => rw [hv] at h; cases h
+
+/-- **the first loop with the evaluations inside**: whatever the arguments do — all fine, the `k`-th one fails after `k`
+    writes `values[i] = a`, the `k`-th one is not an array — the loop never writes out of range and ends as the model's
+    `ievalZip` does: with the same failure, or with the running minimum, the filled `values` and the marker -/
+theorem zipLoop1NC_eq (ev : INode → Res Val) : ∀ (args : List INode) (i : Nat) (count : Int) (pre : List (List Val))
+    (en : Bool), pre.length = i →
+    zipLoop1NC ev args (i : Int) count (pre ++ List.replicate args.length []) en =
+      (ievalZipG ev args >>= fun vs =>
+        .ok (countFold count (colsOf vs), pre ++ colsOf vs, en || vs.any isEnum2))
+  | [], i, count, pre, en, _ => by simp [zipLoop1NC, ievalZipG, countFold, colsOf]
+  | arg :: rest, i, count, pre, en, hp => by
+    rw [zipLoop1NC, ievalZipG]
+    cases hv : ev arg with
+    | ok value =>
+      simp only [Res.ok_bind]
+      cases value with
+      | arr t a =>
+        simp only [List.length_cons]
+        rw [set?_ok _ _ _ (by omega) (by simp; omega)]
+        simp only [Res.ok_bind]
+        rw [show ((i : Int)).toNat = pre.length by omega, set_append_replicate]
+        have := zipLoop1NC_eq ev rest (i + 1) (if (a.length : Int) < count then (a.length : Int) else count)
+          (pre ++ [a]) (en || enum2 t a) (by simp; omega)
+        rw [show ((i : Int) + 1) = ((i + 1 : Nat) : Int) by omega, this]
+        cases ievalZipG ev rest with
+        | ok vs' => simp [colsOf, countFold, isEnum2, Bool.or_assoc]
+        | _ => rfl
+      | _ => rfl
+    | _ => rfl
+
+/-- on evaluated array arguments the value-level mirror is the common tail -/
+theorem zipC_of_allArr (vs : List Val) (hall : vs.all isArr = true)
+    (hargs : (vs.length : Int) ≤ makeLimitOf sliceHdrSize) :
+    zipC vs = zipTailC (countFold maxInt (colsOf vs)) (colsOf vs) (vs.any isEnum2) := by
+  unfold zipC
+  rw [makeOf?_ok _ _ _ (by omega) hargs]
+  simp only [Res.ok_bind]
+  have h1 := zipLoop1C_eq vs 0 maxInt [] rfl
+  simp only [List.nil_append] at h1
+  rw [show ((vs.length : Int)).toNat = vs.length by omega, show (0 : Int) = ((0 : Nat) : Int) by rfl, h1]
+  simp only [hall, if_true, Res.ok_bind]
+
+/-- **a zip node evaluates as its Go-shaped checked mirror, in every case** — success, an argument that fails (error,
+    or any other outcome) after some writes, an argument that is not an array: no `make`, no `values[i] = a`,
+    no `result[j] = value[i]`, no `results[i] = result` panics.
+    Hypotheses: the node has an argument (`ArrGo.parse_zip_nonempty`: the parser guarantees it), at most
+    `maxAlloc / 24` of them, and the arrays the arguments evaluate to are within the `[]any` allocation limit. -/
+theorem zipNodeC_eq (root : Val) (args : List INode) (cur : Val) (env : Env)
+    (hne : zipHead (.zip args) = true) (hargs : (args.length : Int) ≤ makeLimitOf sliceHdrSize)
+    (hlen : ∀ vs, ievalZip root args cur env = .ok vs → ∀ t a, Val.arr t a ∈ vs → (a.length : Int) ≤ makeLimit) :
+    zipNodeC (fun n => ieval root n cur env) args = ieval root (.zip args) cur env := by
+  unfold zipNodeC
+  rw [makeOf?_ok _ _ _ (by omega) hargs]
+  simp only [Res.ok_bind]
+  have h1 := zipLoop1NC_eq (fun n => ieval root n cur env) args 0 maxInt [] false rfl
+  simp only [List.nil_append, Bool.false_or] at h1
+  rw [show ((args.length : Int)).toNat = args.length by omega, show (0 : Int) = ((0 : Nat) : Int) by rfl, h1,
+    ieval_zip, ievalZip_G]
+  cases hz : ievalZipG (fun n => ieval root n cur env) args with
+  | ok vs =>
+    simp only [Res.ok_bind]
+    obtain ⟨hall, hl⟩ := ievalZipG_spec _ args vs hz
+    rw [← zipC_of_allArr vs hall (by omega)]
+    refine zipC_eq vs ?_ (by omega) (hlen vs (by rw [ievalZip_G]; exact hz))
+    intro h
+    subst h
+    cases args with
+    | nil => simp [zipHead] at hne
+    | cons a r => simp at hl
+  | _ => rfl
+
+/-- `zip(@, 'x')` on `[1]`: the first argument is evaluated and written, the second is not an array —
+    `InvalidTypeError` after one write, no panic -/
+example : zipNodeC (fun n => ieval .null n (.arr .plain [.null]) []) [.current, .lit (.str [0x78])]
+    = .err [Cat.invalidType] := rfl
+/-- an argument that fails to evaluate (here: an undefined variable) after one write -/
+example : zipNodeC (fun n => ieval .null n (.arr .plain [.null]) []) [.current, .variable [0x78]]
+    = ieval .null (.zip [.current, .variable [0x78]]) (.arr .plain [.null]) [] :=
+  zipNodeC_eq _ _ _ _ rfl (by decide) (by
+    intro vs h; rw [ievalZip_G] at h; cases h)
+example : zipNodeC (fun n => ieval .null n (.arr .plain [.null, .bool true]) []) [.current, .current]
+    = .ok (.arr .plain [.arr .plain [.null, .null], .arr .plain [.bool true, .bool true]]) := rfl
+/-- without an argument the Go code would reach `make([]any, math.MaxInt)` -/
+example : zipNodeC (fun n => ieval .null n .null []) [] = .panic makeMsg := rfl
 
 /-! ## array.go value-level functions -/
 
@@ -1439,16 +1605,17 @@ example : sortArrayC (.arr .plain []) (lenGuard := false) = .panic idxMsg := rfl
 
 /-- array.go:564 `index(v, i)`.
     Sites: `:570 if i < 0 { i += len(a); if i < 0 { return nil } }`, `:575 else if i >= len(a) { return nil }` (the flag
-    `hiGuard` keeps this one), `:579 a[i]`.  The `.nondet` line is the model's marker for a map-ordered array. -/
+    `hiGuard` keeps this one), `:579 a[i]`.  The `.nondet` line is the model's marker for a map-ordered array; it is
+    consulted AFTER the checked read `a[i]` (in range or not depends on `len(a)` only). -/
 def indexC (v : Val) (i : Int) (hiGuard : Bool := true) : Res Val :=
   match v with
   | .arr t a =>
     if i < 0 then
       let i := i + (a.length : Int)
       if i < 0 then pure .null
-      else if enum2 t a then .nondet else idx? a i
+      else do let x ← idx? a i; if enum2 t a then .nondet else pure x
     else if hiGuard && i ≥ (a.length : Int) then pure .null
-    else if enum2 t a then .nondet else idx? a i
+    else do let x ← idx? a i; if enum2 t a then .nondet else pure x
   | _ => pure .null
 
 /-- **index never reads out of range**, for every value and every integer (64-bit or not): the checked mirror of
@@ -1464,18 +1631,14 @@ theorem indexC_eq (v : Val) (i : Int) : indexC v i = index v i := by
       · simp [h1]
       · have h2 : ¬ (i + (a.length : Int) ≥ (a.length : Int)) := by omega
         simp only [h1, h2, if_false, or_self]
-        cases enum2 t a
-        · simp only [Bool.false_eq_true, if_false]
-          exact idx?_ok a _ (by omega) (by omega) .null
-        · rfl
+        rw [idx?_ok a _ (by omega) (by omega) .null, Res.ok_bind]
+        rfl
     · simp only [h0, if_false, Bool.true_and, decide_eq_true_eq]
       by_cases h1 : i ≥ (a.length : Int)
       · simp [h1]
       · simp only [h1, if_false]
-        cases enum2 t a
-        · simp only [Bool.false_eq_true, if_false]
-          exact idx?_ok a _ (by omega) (by omega) .null
-        · rfl
+        rw [idx?_ok a _ (by omega) (by omega) .null, Res.ok_bind]
+        rfl
   | _ => rfl
 
 example : indexC (.arr .plain [.bool true, .bool false]) (-1) = .ok (.bool false) := rfl
@@ -1485,6 +1648,10 @@ example : indexC (.arr .plain [.bool true]) (-9223372036854775808) = .ok .null :
 /-- GUARD DELETION (array.go:575 `else if i >= len(a) { return nil }`): without it ``[1][5]`` reads `a[5]` at
     array.go:579 and panics. -/
 example : indexC (.arr .plain [.bool true]) 5 (hiGuard := false) = .panic idxMsg := rfl
+/-- … and so does `values(@)[5]` on a two-member object (a map-ordered array): the read is checked before the marker -/
+example : indexC (.arr .enum [.bool true, .null]) 5 (hiGuard := false) = .panic idxMsg := rfl
+example : indexC (.arr .enum [.bool true, .null]) 5 = .ok .null := rfl
+example : indexC (.arr .enum [.bool true, .null]) 1 = .nondet := rfl
 
 /-! ## array.go `pruneArray` -/
 
@@ -1624,7 +1791,7 @@ example : flattenC (.arr .plain [.arr .plain [.bool true, .null], .null, .bool f
 
 /-! ## string.go `join` -/
 
-/-- string.go:487-499 `for _, i := range a[1:] { e, ok := i.(string); if !ok {…}; b.WriteString(s); b.WriteString(e) }` -/
+/-- string.go:488-499 `for _, i := range a[1:] { e, ok := i.(string); if !ok {…}; b.WriteString(s); b.WriteString(e) }` -/
 def joinLoopC (s : Bytes) : List Val → Bytes → Res Bytes
   | [], b => pure b
   | i :: rest, b =>
@@ -1634,7 +1801,7 @@ def joinLoopC (s : Bytes) : List Val → Bytes → Res Bytes
 
 /-- string.go:456 `join(sep, value)`.
     Sites: `:473 if len(a) == 0 { return "", nil }` (flag `lenGuard`); `:477 a[0]`, `:480 a[0]` (inside
-    `reflect.TypeOf`), `:487 a[1:]`.  The `.nondet` line is the model's marker for a map-ordered array. -/
+    `reflect.TypeOf`), `:488 a[1:]`.  The `.nondet` line is the model's marker for a map-ordered array. -/
 def joinC (sep value : Val) (lenGuard : Bool := true) : Res Val :=
   match value with
   | .arr t a =>
@@ -1715,23 +1882,23 @@ example : joinC (.str [0x2C]) (.arr .plain []) (lenGuard := false) = .panic idxM
 /-- object.go:89-112 `for _, i := range a { ia, ok := i.([]any); if !ok {…}; if len(ia) != 2 {…fromItemsLengthError};
     k, ok := ia[0].(string); if !ok {…reflect.TypeOf(ia[0])…}; r[k] = ia[1] }`.
     Sites: `:98 if len(ia) != 2` (the flag `lenGuard` keeps it); `:104 ia[0]`, `:107 ia[0]`, `:111 ia[1]`.
-    The `.nondet` line is the model's marker (a map-ordered pair). -/
+    The `.nondet` line is the model's marker (a map-ordered pair), consulted after the checked reads. -/
 def fromItemsLoopC (lenGuard : Bool) : List Val → List (Bytes × Val) → Res (List (Bytes × Val))
   | [], r => pure r
   | i :: rest, r =>
     match i with
     | .arr t ia =>
       if lenGuard && (ia.length : Int) != 2 then errValue
-      else if enum2 t ia then .nondet
       else do
         let k ← idx? ia 0
         match k with
         | .str s => do
           let v ← idx? ia 1
-          fromItemsLoopC lenGuard rest (objInsert s v r)
+          if enum2 t ia then .nondet                        -- (model marker, after the checked reads)
+          else fromItemsLoopC lenGuard rest (objInsert s v r)
         | _ => do
           let _ ← idx? ia 0
-          errValue
+          if enum2 t ia then .nondet else errValue
     | _ => errType
 
 /-- **from_items never indexes out of range**: the `len(ia) != 2` guard suffices for `ia[0]`, `ia[1]`; the checked loop
@@ -1752,7 +1919,7 @@ theorem fromItemsLoopC_eq : ∀ (xs : List Val) (r : List (Bytes × Val)), fromI
         cases k with
         | str s => simp only; exact fromItemsLoopC_eq rest _
         | _ => rfl
-      · rfl
+      · cases k <;> rfl
     · rw [fromItemsLoopC]; simp only [fromItemsLoop]
       have hg : ((((k :: v :: w :: l).length : Int)) != 2) = true := by simp; omega
       simp only [hg, Bool.and_true, if_true]
@@ -1826,7 +1993,7 @@ example : mapArrayC (fun _ => errType) (.arr .plain [.null]) = .err [Cat.invalid
 
 /-! ### object.go `groupBy` -/
 
-/-- object.go:22-42 `for _, v := range a { rv, err := e.evaluate(node, v, variables); …; s, ok := rv.(string); if !ok {…};
+/-- object.go:23-42 `for _, v := range a { rv, err := e.evaluate(node, v, variables); …; s, ok := rv.(string); if !ok {…};
     if _, ok := r[s]; !ok { r[s] = []any{v} } else { r[s] = append(r[s].([]any), v) } }`.
     Site: `:40 r[s].([]any)` (UNCHECKED single-value type assertion).  The Go map `r` is an association list of `Val`
     (read `objLookup`, write `objInsert`); `tg` is the model's tag of the group arrays. -/
@@ -2069,7 +2236,8 @@ def maxByNumLoopC (f : Val → Res Val) : List Val → Int → Dec → Int → R
 def maxByStrTailC (f : Val → Res Val) (t : ATag) (a : List Val) (strMax : Bytes) : Res Val := do
   let tl ← sliceFrom? a 1
   let index ← maxByStrLoopC f tl 0 strMax 0
-  if enum2 t a && !ghostUnique Key.gtMax f a then .nondet else idx? a index
+  let x ← idx? a index                                      -- return a[index]  (checked before the marker)
+  if enum2 t a && !ghostUnique Key.gtMax f a then .nondet else pure x
 
 /-- array.go:57-85, the number branch: `:65 a[1:]`, `:85 a[index]` -/
 def maxByNumTailC (f : Val → Res Val) (t : ATag) (a : List Val) (max : Val) : Res Val :=
@@ -2078,12 +2246,14 @@ def maxByNumTailC (f : Val → Res Val) (t : ATag) (a : List Val) (max : Val) : 
   | some numMax => do
     let tl ← sliceFrom? a 1
     let index ← maxByNumLoopC f tl 0 numMax 0
-    if enum2 t a && !ghostUnique Key.gtMax f a then .nondet else idx? a index
+    let x ← idx? a index                                    -- return a[index]  (checked before the marker)
+    if enum2 t a && !ghostUnique Key.gtMax f a then .nondet else pure x
 
 /-- array.go:13 `arrayMaxBy(value, node, variables)`.
     Sites: `:22 if len(a) == 0 { return nil, nil }` (flag `lenGuard`); `:26 a[0]`; `:34 a[1:]`, `:54 a[index]`
     (string keys); `:65 a[1:]`, `:85 a[index]` (number keys), `index = i + 1` at `:50`/`:81`.
-    `widen` is kept around the body as in the model; the `.nondet` line is the model's marker. -/
+    `widen` is kept around the body as in the model; the `.nondet` line is the model's marker, consulted after the checked
+    `a[index]` (in `maxBy*TailC`). -/
 def arrayMaxByC (f : Val → Res Val) (v : Val) (lenGuard : Bool := true) : Res Val :=
   match v with
   | .arr t a =>
@@ -2152,14 +2322,15 @@ def maxByPick (t : ATag) (x0 : Val) (rest : List Val) (ks : List Key) : Res Val 
 
 theorem maxBy_finish (f : Val → Res Val) (t : ATag) (x0 : Val) (rest : List Val) (k0 : Key) (ks : List Key)
     (hks : keysOf f (x0 :: rest) = .ok (k0 :: ks)) (hl : ks.length = rest.length) :
-    (if enum2 t (x0 :: rest) && !ghostUnique Key.gtMax f (x0 :: rest) then Res.nondet
-      else idx? (x0 :: rest) ((pickIdx Key.gtMax 0 k0 (0 + 1) ks : Nat) : Int)) = maxByPick t x0 rest (k0 :: ks) := by
+    (idx? (x0 :: rest) ((pickIdx Key.gtMax 0 k0 (0 + 1) ks : Nat) : Int) >>= fun x =>
+      if enum2 t (x0 :: rest) && !ghostUnique Key.gtMax f (x0 :: rest) then Res.nondet else pure x)
+      = maxByPick t x0 rest (k0 :: ks) := by
   unfold maxByPick ghostUnique
   rw [hks]
   simp only
   have := pickIdx_spec Key.gtMax (x0 :: rest) ks rest [x0] 0 k0 rfl (by simp) hl
   simp only [List.length_singleton] at this
-  rw [idx?_ok_nat _ _ this.1 .null, this.2]
+  rw [idx?_ok_nat _ _ this.1 .null, this.2, Res.ok_bind]
   rfl
 
 theorem maxByStrTailC_eq (f : Val → Res Val) (t : ATag) (x0 : Val) (rest : List Val) (s : Bytes)
@@ -2258,7 +2429,8 @@ def minByNumLoopC (f : Val → Res Val) : List Val → Int → Dec → Int → R
 def minByStrTailC (f : Val → Res Val) (t : ATag) (a : List Val) (strMin : Bytes) : Res Val := do
   let tl ← sliceFrom? a 1
   let index ← minByStrLoopC f tl 0 strMin 0
-  if enum2 t a && !ghostUnique Key.ltMin f a then .nondet else idx? a index
+  let x ← idx? a index                                      -- return a[index]  (checked before the marker)
+  if enum2 t a && !ghostUnique Key.ltMin f a then .nondet else pure x
 
 /-- array.go:132-160, the number branch: `:140 a[1:]`, `:160 a[index]` -/
 def minByNumTailC (f : Val → Res Val) (t : ATag) (a : List Val) (min : Val) : Res Val :=
@@ -2267,12 +2439,14 @@ def minByNumTailC (f : Val → Res Val) (t : ATag) (a : List Val) (min : Val) : 
   | some numMin => do
     let tl ← sliceFrom? a 1
     let index ← minByNumLoopC f tl 0 numMin 0
-    if enum2 t a && !ghostUnique Key.ltMin f a then .nondet else idx? a index
+    let x ← idx? a index                                    -- return a[index]  (checked before the marker)
+    if enum2 t a && !ghostUnique Key.ltMin f a then .nondet else pure x
 
 /-- array.go:88 `arrayMinBy(value, node, variables)`.
     Sites: `:97 if len(a) == 0 { return nil, nil }` (flag `lenGuard`); `:101 a[0]`; `:109 a[1:]`, `:129 a[index]`
     (string keys); `:140 a[1:]`, `:160 a[index]` (number keys), `index = i + 1` at `:125`/`:156`.
-    `widen` is kept around the body as in the model; the `.nondet` line is the model's marker. -/
+    `widen` is kept around the body as in the model; the `.nondet` line is the model's marker, consulted after the checked
+    `a[index]` (in `minBy*TailC`). -/
 def arrayMinByC (f : Val → Res Val) (v : Val) (lenGuard : Bool := true) : Res Val :=
   match v with
   | .arr t a =>
@@ -2341,14 +2515,15 @@ def minByPick (t : ATag) (x0 : Val) (rest : List Val) (ks : List Key) : Res Val 
 
 theorem minBy_finish (f : Val → Res Val) (t : ATag) (x0 : Val) (rest : List Val) (k0 : Key) (ks : List Key)
     (hks : keysOf f (x0 :: rest) = .ok (k0 :: ks)) (hl : ks.length = rest.length) :
-    (if enum2 t (x0 :: rest) && !ghostUnique Key.ltMin f (x0 :: rest) then Res.nondet
-      else idx? (x0 :: rest) ((pickIdx Key.ltMin 0 k0 (0 + 1) ks : Nat) : Int)) = minByPick t x0 rest (k0 :: ks) := by
+    (idx? (x0 :: rest) ((pickIdx Key.ltMin 0 k0 (0 + 1) ks : Nat) : Int) >>= fun x =>
+      if enum2 t (x0 :: rest) && !ghostUnique Key.ltMin f (x0 :: rest) then Res.nondet else pure x)
+      = minByPick t x0 rest (k0 :: ks) := by
   unfold minByPick ghostUnique
   rw [hks]
   simp only
   have := pickIdx_spec Key.ltMin (x0 :: rest) ks rest [x0] 0 k0 rfl (by simp) hl
   simp only [List.length_singleton] at this
-  rw [idx?_ok_nat _ _ this.1 .null, this.2]
+  rw [idx?_ok_nat _ _ this.1 .null, this.2, Res.ok_bind]
   rfl
 
 theorem minByStrTailC_eq (f : Val → Res Val) (t : ATag) (x0 : Val) (rest : List Val) (s : Bytes)
@@ -2453,7 +2628,7 @@ def sortByNumLoopC (f : Val → Res Val) : List Val → Int → List Key → Res
     in range because `len(by) = len(items) = len(a)` (`keysOf_length` below).  Its result is the model's
     `sortByKeys`; the `.nondet` line is the model's marker. -/
 def sortByStrTailC (f : Val → Res Val) (t : ATag) (a : List Val) (s : Bytes) : Res Val := do
-  let by' ← makeOf? (Key.s []) (a.length : Int)
+  let by' ← makeOf? wordPairSize (Key.s []) (a.length : Int)      -- make([]string, len(a)): 16-byte elements
   let by' ← set? by' 0 (Key.s s)
   let tl ← sliceFrom? a 1
   let by' ← sortByStrLoopC f tl 0 by'
@@ -2465,7 +2640,7 @@ def sortByNumTailC (f : Val → Res Val) (t : ATag) (a : List Val) (first : Val)
   match toDecimal first with
   | none => errType
   | some d => do
-    let by' ← makeOf? (Key.n (Dec.zero)) (a.length : Int)
+    let by' ← makeOf? wordPairSize (Key.n (Dec.zero)) (a.length : Int)   -- make([]decimal128.Decimal, len(a)): 16 bytes
     let by' ← set? by' 0 (Key.n d)
     let tl ← sliceFrom? a 1
     let by' ← sortByNumLoopC f tl 0 by'
@@ -2537,8 +2712,8 @@ def sortByFinish (t : ATag) (a : List Val) (ks : List Key) : Res Val :=
 
 /-- `make` + `by[0] = k` -/
 theorem sortBy_init (z k : Key) (n : Nat) (hmake : ((n + 1 : Nat) : Int) ≤ makeLimit) :
-    (makeOf? z ((n + 1 : Nat) : Int) >>= fun by' => set? by' 0 k) = .ok ([k] ++ List.replicate n z) := by
-  rw [makeOf?_ok _ _ (by omega) hmake]
+    (makeOf? wordPairSize z ((n + 1 : Nat) : Int) >>= fun by' => set? by' 0 k) = .ok ([k] ++ List.replicate n z) := by
+  rw [makeOf?_ok _ _ _ (by omega) (by rw [wordPairSize, ← makeLimit_eq]; exact hmake)]
   simp only [Res.ok_bind]
   rw [set?_ok _ _ _ (by omega) (by simp)]
   rw [show (((n + 1 : Nat) : Int)).toNat = n + 1 by omega]
